@@ -187,7 +187,7 @@ Section FixedLibEv.
   Hypothesis Hundo : f_undo (c_filter cfg) = true.
   Hypothesis Hincl : c_incl cfg = false.
 
-  Hypothesis U_id : forall b, In b U -> bid b <> 0 /\ bparent b <> 0 /\ bid b <> bparent b.
+  Hypothesis U_id : forall b, In b U -> bid b <> 0 /\ bid b <> bparent b.
   Hypothesis U_uniq : forall x y, In x U -> In y U -> bid x = bid y -> x = y.
   Hypothesis U_up : forall x y, In x U -> In y U -> bparent x = bid y -> bnum y < bnum x.
   Hypothesis L_id : ri r0 <> 0.
@@ -460,7 +460,9 @@ Section FixedLibEv.
     pose proof HI as [Hnd HU Hl Hlc Hh].
     pose proof (wf_of_U U U_id U_up _ Hnd HU) as Hwf.
     destruct (find (bid b) (store (db s))) as [e|] eqn:Hf.
-    { exists s, [], S. rewrite (fk_step_old U cfg Hincl U_id U_uniq s b e HU Hb Hf Hwf).
+    { exists s, [], S.
+      assert (Hlz : ri (libref (db s)) <> 0) by (destruct Hl as [-> _]; exact L_id).
+      rewrite (fk_step_old U cfg Hincl U_id U_uniq s b e HU Hb Hf Hwf (stored_root_unsent U r0 U_uniq L_id _ b e HU Hb Hf Hwf Hlc) Hlz).
       assert (In (bid b) (keys (store (db s)))) by (apply find_is_some_in; eauto).
       split; [reflexivity|]. split; [reflexivity|]. split; [exact HI|]. split; [exact Hseen|].
       split; [apply c04_step_quiet | apply SkSame; auto]. }
